@@ -144,6 +144,20 @@ PROPS = {
         "technique": "Lean 4 proof (induction over operation lists) + twin-run differential correspondence",
         "assumptions": ["holder signatures are deterministic (RFC 6979), so twin runs are comparable byte for byte"],
     },
+    "C15": {
+        "rule": "every call under catch_unwind with a wall-clock bound (5 s): all 508 hostile COSE keys (EC2 P-256 with every x / y length 0..70, sign-bit form, the four OKP curves with every length, other curves, zero / all-ff / non-map / unknown kty) through EncodedPoint::try_from, get_shared_secret, "
+                "the QR engagement (from_qr_code_uri + establish_session), the session establishment (process_session_establishment) and the MSO device key of a correctly encrypted response (handle_response); structure-aware mutants (field deletion / duplication, type swap, every byte-string length 0..70, bit flips, boundary integers, 300-deep nesting, tag wrapping, also INSIDE Tag24-embedded items) of valid engagements, establishments, "
+                "correctly encrypted requests (followed by prepare/sign/retrieve) and responses, raw random bytes at every entry point, mutated stored states of both roles followed by calls, stored ephemeral keys of wrong length, counters at u32::MAX-1 and u32::MAX on both roles, and the decoders of DeviceEngagement / SessionEstablishment / DeviceRequest / DeviceResponse / SessionData. Distinct by (entry point, input bytes)",
+        "xlate_items": ["panic-sites"],
+        "trusted_base": ["rust/xlate/src/panics.rs: syntactic inventory of the crate's own panic-capable operations (unwrap/expect, from_slice/clone_from_slice/copy_from_slice/split_at, indexing, panic!/unreachable!/assert*!, integer arithmetic, negation) in non-test library code",
+                         "Spec/PanicJustify.lean: the per-site justifications are reasoned arguments recorded as data (checked for totality against the regenerated inventory, not proved from the Rust semantics)",
+                         "dependencies (ciborium incl. its recursion limit, coset, p256, x509-cert, serde, time, base64) are NOT modelled: panics, aborts and non-termination inside them are searched for, not excluded"],
+        "level_text": "Lean theorems: for EVERY COSE key (any curve, key type, coordinate lengths, explicit y or sign bit) the crate's own conversions (EncodedPoint::try_from, device-key coordinates in device_authentication), for every stored ephemeral key and for every counter value the modelled operations return a value or a refusal and never the panic outcome; accepted points are well-formed SEC1 strings; encrypt/decrypt hand get_initialization_vector (translated from session.rs) only counters at which it does not overflow. "
+                      "The inventory of the crate's own panic-capable sites is regenerated from the source on every run and must be totally covered by the justification table (a new unwrap / index / from_slice / arithmetic on any path breaks the build). The pinned commit's panics are kept as checked witness theorems. Everything inside dependencies is covered by the mutation search only.",
+        "level_note": "Partial by nature: a theorem about this crate's own operations plus a syntactic inventory; absence of panics / aborts / hangs inside dependencies on arbitrary input is NOT proved - it is a bounded search under catch_unwind with a time limit (stated in the evidence as search, not proof). Allocation failure aborts cannot be caught.",
+        "technique": "Lean 4 proof over a model of the crate's partial operations + regenerated panic-site inventory (translator) + systematic and mutation-based correspondence",
+        "assumptions": ["a process abort (allocation failure, stack overflow in a dependency) kills the harness and is reported as a harness failure, not as a replayable input"],
+    },
     "C16": {
         "rule": "type-directed generators for every wire type (SessionData, SessionEstablishment, COSE_Key of every curve/key type and odd coordinate lengths, Handover variants, SessionTranscript, ItemsRequest/DocRequest/DeviceRequest, DeviceResponse with application-specific error codes and every status, "
                 "ValidityInfo with non-UTC offsets and sub-second parts, DeviceKeyInfo/KeyAuthorizations/key info, BLE/NFC/Wi-Fi/server retrieval options, DeviceEngagement, Mso, IssuerSigned, IssuerSignedItemBytes, Mdoc, device::Document, DigestId, DigestAlgorithm, both status tables over 0..39, error codes at boundaries, NFC length bounds, out-of-domain rejects); "
